@@ -683,6 +683,14 @@ namespace
           std::vector<double> out;
           ++stats.queries;
           decoy_ask(dim, c.data(), dim == 3 ? c[3] : c[2], props);
+          // "pre_dist": the other public query, World::distance_to_plane, is asked for the named features at the very same point
+          // first -- a query of one kind must not change the answer to the next query of another kind
+          if (s.HasMember("pre_dist") && dim == 3)
+            for (auto &nm : s["pre_dist"].GetArray())
+              {
+                try { (void) w.distance_to_plane({{c[0], c[1], c[2]}}, c[3], nm.GetString()); ++stats.by_check["pre-distance-to-plane"]; }
+                catch (const std::exception &) {}
+              }
           try
             {
               out = dim == 3 ? w.properties(std::array<double,3> {{c[0], c[1], c[2]}}, c[3], props)
